@@ -80,18 +80,19 @@ Qed.
 
 (* ---------------------------------------------------------------- items and what they look like between the stages *)
 Definition item_tags (it : item16) : option (string * string) :=
-  match it with Text _ => None | Block k _ _ _ => Some (stage_tags k) | SigBlock _ _ _ => Some sig_tags end.
+  match it with Text _ => None | Raw _ => None | Block k _ _ _ => Some (stage_tags k) | SigBlock _ _ _ => Some sig_tags end.
 Definition item_body (it : item16) : list uline :=
-  match it with Text _ => [] | Block _ _ _ b => b | SigBlock _ _ b => b end.
+  match it with Text _ => [] | Raw _ => [] | Block _ _ _ b => b | SigBlock _ _ b => b end.
 Definition item_bl (it : item16) : string :=
-  match it with Text _ => EmptyString | Block k ib _ _ => (ib ++ begin_line (block_word k))%string
+  match it with Text _ => EmptyString | Raw _ => EmptyString | Block k ib _ _ => (ib ++ begin_line (block_word k))%string
               | SigBlock ib _ _ => (ib ++ begin_line "PER_ACTION_SIGNATURE")%string end.
 Definition item_el (it : item16) : string :=
-  match it with Text _ => EmptyString | Block k _ ie _ => (ie ++ end_line (block_word k))%string
+  match it with Text _ => EmptyString | Raw _ => EmptyString | Block k _ ie _ => (ie ++ end_line (block_word k))%string
               | SigBlock _ ie _ => (ie ++ end_line "PER_ACTION_SIGNATURE")%string end.
 Definition item_inner (m : smodel) (it : item16) : list string -> option string -> option (list string) :=
   match it with
   | Text _ => fun _ _ => None
+  | Raw _ => fun _ _ => None
   | Block k _ _ _ => inner_of_kind k (items_of (elements_of_model m) k)
   | SigBlock _ _ _ => inner_actionsigs (sm_actionsigs m)
   end.
@@ -114,7 +115,8 @@ Lemma item_expands m it :
   item16_ok it = true -> item16_wf (elements_of_model m) it = true -> item_tags it <> None ->
   item_inner m it (map render_line (item_body it)) None = Some (ref_item16 (elements_of_model m) it).
 Proof.
-  destruct it as [l|k ib ie body|ib ie body]; cbn [item16_ok item16_wf item_tags item_inner item_body ref_item16]; intros Ho Hw Hn.
+  destruct it as [l|rs|k ib ie body|ib ie body]; cbn [item16_ok item16_wf item_tags item_inner item_body ref_item16]; intros Ho Hw Hn.
+  - contradiction.
   - contradiction.
   - apply andb_prop in Ho as [_ Ho]. apply inner_block; assumption.
   - apply andb_prop in Ho as [_ Ho]. cbn [elements_of_model el_sigs]. apply sig_block_is_ref; assumption.
@@ -145,7 +147,7 @@ Qed.
 Lemma expanded_tagfree e it : item16_ok it = true -> item16_wf e it = true -> item_tags it <> None ->
   forallb tagfree (ref_item16 e it) = true.
 Proof.
-  destruct it as [l|k ib ie body|ib ie body]; cbn [item16_ok item16_wf item_tags ref_item16]; intros Ho Hw Hn; [contradiction| |].
+  destruct it as [l|rs|k ib ie body|ib ie body]; cbn [item16_ok item16_wf item_tags ref_item16]; intros Ho Hw Hn; [contradiction|contradiction| |].
   - apply andb_prop in Ho as [_ Ho]. unfold ref_block, block_wf in *. apply (ref_block_tagfree (table_of_kind k) (keys_of k) (keys_same k) body Ho _ 0 Hw).
   - apply andb_prop in Ho as [_ Ho]. unfold ref_block, block_wf in *. apply (ref_block_tagfree sig_table sig_keys sig_keys_same body Ho _ 0 Hw).
 Qed.
@@ -158,11 +160,19 @@ Proof.
     apply negb_true_iff in Hc. cbn [append count_char]. rewrite Hc. cbn [Nat.add]. apply IH. exact H2.
 Qed.
 
+Lemma plain_item_line it : item_tags it = None -> item16_ok it = true ->
+  exists s, render_item16 it = [s] /\ (forall e, ref_item16 e it = [s]) /\ tagfree s = true /\ (count_char LF s <=? 1)%nat = true.
+Proof.
+  destruct it as [l|rs|k ib ie body|ib ie body]; cbn [item_tags item16_ok]; intros T H; try discriminate.
+  - destruct (text_tagfree l H) as [A B]. exists (l ++ nl_str)%string. repeat split; auto.
+  - apply andb_prop in H as [A B]. exists rs. repeat split; auto.
+Qed.
+
 (* ---------------------------------------------------------------- the begin / end lines of a block *)
 Lemma item_lines_ok it tags : item16_ok it = true -> item_tags it = Some tags ->
   block_lines_ok tags (item_bl it) (item_el it) = true.
 Proof.
-  destruct it as [l|k ib ie body|ib ie body]; cbn [item16_ok item_tags item_bl item_el]; intros H T; inversion T; subst;
+  destruct it as [l|rs|k ib ie body|ib ie body]; cbn [item16_ok item_tags item_bl item_el]; intros H T; inversion T; subst;
     apply andb_prop in H as [H _]; exact H.
 Qed.
 
@@ -185,7 +195,7 @@ Proof.
 Qed.
 
 Lemma item_body_ok it : item16_ok it = true -> exists keys, forallb (body_line_ok keys) (item_body it) = true.
-Proof. destruct it as [l|k ib ie body|ib ie body]; cbn [item16_ok item_body]; intros H; [exists []; reflexivity| |]; apply andb_prop in H as [_ H]; eauto. Qed.
+Proof. destruct it as [l|rs|k ib ie body|ib ie body]; cbn [item16_ok item_body]; intros H; [exists []; reflexivity|exists []; reflexivity| |]; apply andb_prop in H as [_ H]; eauto. Qed.
 
 Lemma forallb_impl {A} (f g : A -> bool) l : (forall x, f x = true -> g x = true) -> forallb f l = true -> forallb g l = true.
 Proof. intros H. induction l as [|x l IH]; [reflexivity|]. cbn [forallb]. intros K. apply andb_prop in K as [K1 K2]. rewrite (H x K1), (IH K2). reflexivity. Qed.
@@ -203,8 +213,7 @@ Proof.
     + destruct Hown as [Hown|Hown]; [|discriminate].
       rewrite (render_block_shape it b e' T). destruct (const_facts _ _ _ st (item_lines_ok it _ Ho T) Hst Hown) as [Cb Ce]. cbn [forallb]. rewrite Cb. cbn [andb]. rewrite forallb_app'.
       destruct (item_body_ok it Ho) as (keys & Hk). rewrite (body_lines_inert keys st Hst _ Hk). cbn [forallb andb]. rewrite Ce. reflexivity.
-  - destruct it as [l|k ib ie body|ib ie body]; cbn [item_tags] in T; try discriminate. cbn [render_item16 forallb item16_ok] in *.
-    destruct (text_tagfree l Ho) as [Tf _]. rewrite (tagfree_stage_inert _ st Tf). reflexivity.
+  - destruct (plain_item_line it T Ho) as (s0 & R & _ & Tf & _). rewrite R. cbn [forallb]. rewrite (tagfree_stage_inert _ st Tf). reflexivity.
 Qed.
 
 (* ---------------------------------------------------------------- a stage that is nobody's pending own stage: identity *)
@@ -296,7 +305,7 @@ Proof.
   repeat (destruct H as [H|H]; [subst st;
     first [ left; split; reflexivity
           | right; do 5 eexists; split; [reflexivity|]; split; [reflexivity|];
-            intros it tags T E; destruct it as [l|k ib ie body|ib ie body]; cbn [item_tags] in T; [discriminate| |];
+            intros it tags T E; destruct it as [l|rs|k ib ie body|ib ie body]; cbn [item_tags] in T; [discriminate|discriminate| |];
             inversion T; subst tags; clear T; [destruct k|]; cbn [fst snd stage_tags sig_tags] in *;
             first [ split; [reflexivity|intros x; reflexivity] | vm_compute in E; discriminate E ] ] |]).
   contradiction.
@@ -341,7 +350,7 @@ Section Compose.
 
   Lemma all_done it tags : item_tags it = Some tags -> inb (fst tags) done_final = true.
   Proof.
-    destruct it as [l|k ib ie body|ib ie body]; cbn [item_tags]; intros T; inversion T; subst; [destruct k|]; vm_compute; reflexivity.
+    destruct it as [l|rs|k ib ie body|ib ie body]; cbn [item_tags]; intros T; inversion T; subst; [destruct k|]; vm_compute; reflexivity.
   Qed.
 
   Lemma view_final : flat_map (view e done_final) t = flat_map (ref_item16 e) t.
@@ -349,7 +358,7 @@ Section Compose.
     clear Hok Hwf. induction t as [|it t' IH]; [reflexivity|]. cbn [flat_map]. rewrite IH. f_equal.
     unfold view. destruct (item_tags it) as [[b et]|] eqn:T.
     - pose proof (all_done it (b, et) T) as D. cbn [fst] in D. rewrite D. reflexivity.
-    - destruct it; cbn [item_tags] in T; try discriminate. reflexivity.
+    - destruct it; cbn [item_tags] in T; try discriminate; reflexivity.
   Qed.
 
   Lemma view_initial : flat_map (view e []) t = render16 t.
@@ -402,8 +411,7 @@ Section Whole.
       destruct (item_body_ok it Hi) as (keys & Hk). clear -Hk. induction (item_body it) as [|l body IHb]; [reflexivity|].
       cbn [forallb map] in *. apply andb_prop in Hk as [H1 H2]. rewrite (IHb H2), andb_true_r.
       unfold body_line_ok in H1. repeat (apply andb_prop in H1 as [H1 ?K]). exact K0.
-    - destruct it as [l|k ib ie body|ib ie body]; cbn [item_tags] in T; try discriminate. cbn [render_item16 forallb item16_ok] in *.
-      destruct (text_tagfree l Hi) as [Tf Tc]. rewrite (tagfree_load_inert _ Tf Tc). reflexivity.
+    - destruct (plain_item_line it T Hi) as (s0 & R & _ & Tf & Tc). rewrite R. cbn [forallb]. rewrite (tagfree_load_inert _ Tf Tc). reflexivity.
   Qed.
 
   Lemma ref_lines_tagfree : forallb tagfree (flat_map (ref_item16 e) t) = true.
@@ -413,8 +421,7 @@ Section Whole.
     cbn [flat_map]. rewrite forallb_app', (IH Ho Hw'), andb_true_r.
     destruct (item_tags it) as [tags|] eqn:T.
     - apply expanded_tagfree; [assumption|assumption|rewrite T; discriminate].
-    - destruct it as [l|k ib ie body|ib ie body]; cbn [item_tags] in T; try discriminate. cbn [ref_item16 forallb item16_ok] in *.
-      destruct (text_tagfree l Hi) as [Tf _]. rewrite Tf. reflexivity.
+    - destruct (plain_item_line it T Hi) as (s0 & _ & R & Tf & _). rewrite R. cbn [forallb]. rewrite Tf. reflexivity.
   Qed.
 
   (* the generated file of a template of the grammar is the reference expansion *)
@@ -424,6 +431,23 @@ Section Whole.
     unfold engine16, generate_file, generate. rewrite phases_eq. cbn [fold_left].
     rewrite !phase_skip by (cbn [In]; tauto).
     rewrite phase_load. cbn [map_files]. rewrite (load_file_id dict _ Hd render16_load_inert Hfmn).
+    rewrite phase_expand. cbn [map_files]. rewrite (second_filter16 m t Ho Hw).
+    rewrite phase_usertags. unfold do_user_tags. cbn [map fst snd]. unfold do_user_tags_file.
+    rewrite (ut_scan_tagfree _ _ _ ref_lines_tagfree).
+    rewrite phase_for. cbn [map_files]. rewrite (do_for_tagfree _ ref_lines_tagfree).
+    rewrite !phase_skip by (cbn [In]; tauto). rewrite phase_write. cbn [map_files].
+    rewrite !phase_skip by (cbn [In]; tauto). reflexivity.
+  Qed.
+
+  (* the same for any assignment of user tags and any template lines that the first filtering turns into render16 t
+     (a shipped template file under a concrete dictionary): nothing is left for the user-tag and FOR phases *)
+  Theorem generate_is_ref (a : usertags) lines :
+    load_file dict lines = Some (render16 t) -> generate_file m dict a lines = Some (ref16 e t).
+  Proof.
+    intros Hl. pose proof grammar_items as Ho.
+    unfold generate_file, generate. rewrite phases_eq. cbn [fold_left].
+    rewrite !phase_skip by (cbn [In]; tauto).
+    rewrite phase_load. cbn [map_files]. rewrite Hl.
     rewrite phase_expand. cbn [map_files]. rewrite (second_filter16 m t Ho Hw).
     rewrite phase_usertags. unfold do_user_tags. cbn [map fst snd]. unfold do_user_tags_file.
     rewrite (ut_scan_tagfree _ _ _ ref_lines_tagfree).
